@@ -1,4 +1,6 @@
 import WebrtcVerif.Base.Wire
+import WebrtcVerif.Drv.C35
+import WebrtcVerif.Drv.C17
 import WebrtcVerif.Drv.C29
 import WebrtcVerif.Drv.C28
 import WebrtcVerif.Drv.C38
@@ -32,6 +34,8 @@ def runLine (toks : List String) : String :=
   | "C38" :: rest => Drv.C38.run rest
   | "C28" :: rest => Drv.C28.run rest
   | "C29" :: rest => Drv.C29.run rest
+  | "C17" :: rest => Drv.C17.run rest
+  | "C35" :: rest => Drv.C35.run rest
   | _ => "bad-op"
 
 def judgeLine (toks : List String) : String :=
@@ -50,6 +54,8 @@ def judgeLine (toks : List String) : String :=
   | "C38" :: rest => Drv.C38.judge rest out
   | "C28" :: rest => Drv.C28.judge rest out
   | "C29" :: rest => Drv.C29.judge rest out
+  | "C17" :: rest => Drv.C17.judge rest out
+  | "C35" :: rest => Drv.C35.judge rest out
   | _ => "bad-judge"
 
 partial def loop (h : IO.FS.Stream) (out : IO.FS.Stream) (f : List String → String) : IO Unit := do
